@@ -16,6 +16,7 @@ META = {
     "assumptions": [
         "resampled spectrum recomputed independently with np.interp on the FFT bins k*fs/nfft, 0 outside the grid",
         "sample variance compared with sum_{k>=1} E_k*df (w: omega^2 weighting) at 1e-9 relative (DFT orthogonality makes it exact)",
+        "a sample frequency k*fs/nfft equal, within 1e-12 relative, to the first or last frequency of the spectrum may be resampled as inside or outside (one bin of E(end)*df slack); exact multiples are common (f0=0.05, fs=0.5, nfft=6000)",
         "1D spectra carry no direction in the generator: x equals the full elevation variance, y is zero",
         "same-seed series compared bit-for-bit; scaled series 1e-12 relative",
     ],
@@ -76,9 +77,20 @@ def run(c):
     Ek = np.interp(fk, np.array(c["f"]), np.array(c["e"]), left=0.0, right=0.0)
     var_z = float((Ek[1:] * df).sum())
     var_w = float(((2 * np.pi * fk[1:]) ** 2 * Ek[1:] * df).sum())
+    # a sample frequency that coincides with the first or last frequency of the spectrum within rounding (k*fs/nfft
+    # evaluated in another order of operations) may count as inside or outside the spectrum; where the density does
+    # not vanish at that end the resampled value jumps between 0 and E(end). Both readings are admissible.
+    fa = np.array(c["f"])
+    edge = np.zeros(len(fk), dtype=bool)
+    for fe in (fa[0], fa[-1]):
+        edge |= np.abs(fk - fe) <= 1e-12 * max(fe, 1e-300)
+    edge[0] = False
+    amb_z = float((np.maximum(Ek, np.interp(fk, fa, np.array(c["e"])))[edge] * df).sum())
+    amb_w = float(((2 * np.pi * fk[edge]) ** 2 * np.maximum(Ek, np.interp(fk, fa, np.array(c["e"])))[edge] * df).sum())
     ct, sn = math.cos(math.radians(theta)), math.sin(math.radians(theta))
     expect = {"z": var_z, "w": var_w, "x": ct ** 2 * var_z, "y": sn ** 2 * var_z,
               "u": ct ** 2 * var_w, "v": sn ** 2 * var_w}
+    slack = {"z": amb_z, "w": amb_w, "x": ct ** 2 * amb_z, "y": sn ** 2 * amb_z, "u": ct ** 2 * amb_w, "v": sn ** 2 * amb_w}
     series = {}
     for comp in ("z", "w", "x", "y", "u", "v"):
         t, s = surface_timeseries(comp, fs, L, spec, seed)
@@ -93,7 +105,7 @@ def run(c):
         scale = max(var_w if comp in ("w", "u", "v") else var_z, 1e-300)
         # a constant offset (the f=0 bin) leaves round-off of order eps^2*mean^2 in np.var
         floor = 1e-24 * float(np.mean(s) ** 2 + np.abs(s).max() ** 2)
-        require(abs(v - expect[comp]) <= 1e-9 * scale + floor, f"variance_of_{comp}",
+        require(abs(v - expect[comp]) <= 1e-9 * scale + floor + slack[comp] * (1 + 1e-9), f"variance_of_{comp}",
                 f"fs={fs} L={L} theta={theta} var={v!r} expected={expect[comp]!r}")
         series[comp] = s
     # reproducibility
